@@ -10,19 +10,22 @@ CLAIMED = {
                     "result is reported), the whole check pipeline from Check.__call__ to the CheckResult (back-end __call__, the preprocess / apply / postprocess dispatchers over the "
                     "full object-kind x output-kind matrix, apply_field / apply_table / apply_dict: no verdict without calling the check function; table-shaped output bounded), joint "
                     "uniqueness and - shape-bounded - column presence / strict / filter / order."
-                    " Since session 4 also: IndexBackend.validate (the index is judged as the series of its own values AND dtype), duplicated nulls among the uniqueness failure cases, the index keeps its own dtype under a dataframe-level dtype, nullable-boolean check outputs (refuted: known finding), frame-level ignore_na from the documentation (refuted: known finding).",
+                    " Since session 4 also: IndexBackend.validate (the index is judged as the series of its own values AND dtype), duplicated nulls among the uniqueness failure cases, the index keeps its own dtype under a dataframe-level dtype, nullable-boolean check outputs (refuted: known finding), frame-level ignore_na from the documentation (refuted: known finding)."
+                    " Session 5: table-shaped check outputs aligned with the table are decided (cell verdicts, verdict, reported cells; unaligned outputs / repeated labels stay bounded); every violated joint-uniqueness group is reported; the container twins (strict / ordered over layouts with regex columns) are part of C01.",
             "note": COMMON_NOTE + "Regex matching is an uninterpreted relation; reshape_failure_cases is opaque."},
     "C18": {"text": "Environment parsing, context save/override/restore on every exit of an arbitrary with-body (generator split at the yield), the scope wrapper "
                     "skip rule, report filtering and the polars depth default are proved for all option values / all depths; the kill switch "
                     "(validation disabled -> argument returned, no back end looked up) at every public validate of the pandas and polars APIs; structural: every core check "
                     "of both back ends (resolved through the MRO of each concrete back-end class) carries exactly one scope and that scope is the declared scope of the reason "
                     "codes it reports; call-site obligation that parser-stage errors respect the depth (refuted: known finding)."
-                    " Since session 4 also: the collector contracts of C02 (the handler keeps every error it is offered, whatever the depth).",
+                    " Since session 4 also: the collector contracts of C02 (the handler keeps every error it is offered, whatever the depth)."
+                    " Session 5: the polars cast selected per depth (DATA_ONLY validates data) is part of C18.",
             "note": COMMON_NOTE + "The with-body is an arbitrary effect on the context configuration; copy.copy model."},
     "C19": {"text": "Alias constructors are proved to be exactly one call of the canonical constructor with the same arguments; ignore_na/element_wise/"
                     "n_failure_cases/raise_warning semantics of the pandas check back end are proved for all series and option values; group-by checks (call and group formatting); the "
                     "check pipeline shared with C01 (every option acts only in the step that documents it; dispatch never skips a step)."
-                    " Since session 4 also: grouped ignore_na (preprocess_table_with_key with a groupby), nullable-boolean outputs, a dispatcher is refreshed by the built-in it implements.",
+                    " Since session 4 also: grouped ignore_na (preprocess_table_with_key with a groupby), nullable-boolean outputs, a dispatcher is refreshed by the built-in it implements."
+                    " Session 5: polars element-wise checks are evaluated with the Check's keyword arguments; table-shaped outputs (ignore_na per cell, n_failure_cases).",
             "note": COMMON_NOTE + "groupby(...).head(n) is axiomatised as an arbitrary sub-selection; user predicates are S-callbacks."},
     "C02": {"text": "ErrorHandler.collect_error/collect_errors are proved (eager raises exactly the offered error and records nothing; lazy appends exactly one "
                     "record), every collection loop is proved to offer each failing core result exactly once, in order, carrying the result's fields, the component "
@@ -30,7 +33,8 @@ CLAIMED = {
                     "failing check reports (postprocess_field: exactly the rows whose output is False, also under repeated labels); every run_checks of both back ends yields one "
                     "result per declared check; the polars lazy report lists one row per failure case of every collected error, none merged (failure_cases_metadata over height-only frames). "
                     "The pandas reshape/consolidate pipelines are not under contract."
-                    " Since session 4 also: reshape_failure_cases for one-column failure cases (a failure case on a row labelled NaN is kept), the polars producers of row masks (check_nullable, check_unique, joint uniqueness: failure cases in row order, one per masked-out row).",
+                    " Since session 4 also: reshape_failure_cases for one-column failure cases (a failure case on a row labelled NaN is kept), the polars producers of row masks (check_nullable, check_unique, joint uniqueness: failure cases in row order, one per masked-out row)."
+                    " Session 5: consolidate_failure_cases (the column, context and completeness of the report rows), every violated joint-uniqueness group, the polars coercion helper (every column attempted, one error per column), a standalone Column under lazy coercion.",
             "note": COMMON_NOTE + "reshape_failure_cases / consolidate_failure_cases are opaque (pandas unstack/concat pipelines); SchemaErrors.__init__ is used through its contract."},
     "C03": {"text": "Lineage obligations on the real bodies of DataFrameSchemaBackend.validate, ArraySchemaBackend.validate and SeriesSchema.validate: the object that is "
                     "checked and returned is the result of the whole parser chain in order (each parser under its interface contract); drop_invalid_rows row algebra "
@@ -40,26 +44,30 @@ CLAIMED = {
                     "The custom-parser pipeline (run_parsers of both pandas back ends for 0-3 parsers, run_parser, Parser.__call__, PandasParserBackend) and the write-back of parsed columns by "
                     "ColumnBackend.validate. Idempotence of the individual parsers (library casts) is not decided. Refuted, known findings: polars drop_invalid_rows with head/tail/sample; "
                     "a column-level drop_invalid_rows inside a DataFrameSchema; column parsers under sub-sampling."
-                    " Since session 4 also: facts resolved from one frame of the parser chain (column info, dtypes) are used for that frame only (both containers); the coerced index is the index of the result.",
+                    " Since session 4 also: facts resolved from one frame of the parser chain (column info, dtypes) are used for that frame only (both containers); the coerced index is the index of the result."
+                    " Session 5: polars set_default over regex-declared columns, the column info of the PARSED frame (lengths of frame facts modelled), dtype-less added columns.",
             "note": COMMON_NOTE + "The parsers add_missing_columns/strict_filter_columns/set_defaults/coerce_dtype are replaced by interface contracts (return a derived table or raise "
                     "SchemaError(s)); dtype coercion semantics are pandas/polars facts (C10)."},
     "C04": {"text": "Ownership/frame obligations on every validate entry point of the pandas back end (container, array, column, index, series) and the polars API: with "
                     "inplace=False no callee that writes in place ever receives the caller's object; container kind preserved (polars DataFrame/LazyFrame at the API level, "
                     "LazyFrame in / LazyFrame out in the polars column back end incl. drop_invalid_rows); MultiIndex back end; the Index back end hands the index values on "
                     "under positional labels; copy-on-entry is a DEEP copy (preprocess of the array and container back ends; shallow copies and column views share buffers in the "
-                    "theory) and set_default never fills the caller's Series in place.",
+                    "theory) and set_default never fills the caller's Series in place."
+                    " Session 5: ColumnInfo name lists with decidable truth (the caller's frame after a collected add_missing_columns error), the final collect of the polars API (pending strict cast), back-end lookup failure.",
             "note": COMMON_NOTE + "S-lib mutator table (which library operations write their receiver) is assumed; MultiIndexBackend.validate is covered by the fix but not under contract."},
     "C05": {"text": "Frame obligations (every attribute of every pre-existing schema object equals its entry value on every normal and exceptional exit) on the "
                     "validate call graph of the pandas back end, including the mutate-then-revert idioms, for every component kind and every outcome of the component's validate; "
                     "MultiIndexBackend.validate and the polars component functions work on private copies (proved for every outcome); every `check` override of the numpy / pandas / "
                     "polars engine dtypes leaves its receiver and its argument unwritten on every exit (native dtype objects and data containers are opaque values)."
-                    " Since session 4 also: every schema transformation (the C15 contracts: receiver unchanged, nothing mutable shared), the hypothesis check back end (no write to the Hypothesis object), polars dtype-only schemas, closure variables of decorator factories as pre-existing state.",
+                    " Since session 4 also: every schema transformation (the C15 contracts: receiver unchanged, nothing mutable shared), the hypothesis check back end (no write to the Hypothesis object), polars dtype-only schemas, closure variables of decorator factories as pre-existing state."
+                    " Session 5: schema comparison never raises (component __eq__), the coercion helper with the schema's index (single / MultiIndex exit).",
             "note": COMMON_NOTE + "Serialisation / statistics / strategies / model operations of the property's history alphabet are covered by C12-C16's contracts, not here."},
     "C06": {"text": "Exception-set obligations (only documented classes escape) and restore-on-exceptional-exit obligations with the user callback raising at a symbolic "
                     "position k of each run_checks loop; call-site precondition of drop_invalid_rows; structural obligation that every SchemaError construction site "
                     "uses a mapped reason code; the polars container / column back ends, polars add_missing_columns and set_default (no polars exception class escapes); the mask of a "
                     "failed polars coercion has one row per data row (else building the report raises); dtype `check` overrides raise nothing."
-                    " Since session 4 also: a raising user parser must stay in the documented channel (refuted: known finding), polars Column default without dtype, polars Category.try_coerce.",
+                    " Since session 4 also: a raising user parser must stay in the documented channel (refuted: known finding), polars Column default without dtype, polars Category.try_coerce."
+                    " Session 5: DataFrame / Series attribute protocol (a column label is an attribute: the dask branch), back-end lookup failure is a TypeError, dtype-less added columns, the polars final collect, the coercion helper's exits.",
             "note": COMMON_NOTE + "Which exceptions library operations raise is declared per model; an undeclared library exception is outside the claim."},
     "C07": {"text": "Decides the sufficient condition data-race freedom on pandera state: the validate call graph is re-verified with the strict frame (no write, not even "
                     "a reverted one, to schema objects or module globals). The three writes that exist are refuted and listed as known findings with deterministic "
@@ -76,7 +84,8 @@ CLAIMED = {
                     "back ends against one documented spec of strict / 'filter' / ordered / required / add_missing_columns, for all option values over all column layouts "
                     "with <= 3 declared and <= 3 frame columns (shape-bounded, options symbolic); polars component copies, parsers and null handling of row-wise outputs "
                     "(ignore_na) as shared with C03/C05/C11; polars check_nullable (incl. NaN in float columns) / check_unique against the pandas specs, with bounded stand-ins."
-                    " Since session 4 also: NaN arriving as a float value vs as a null in the twin checks (polars total order of floats modelled; refuted: known findings), unique_values_eq on both back ends, compiled patterns with flags, polars Column.set_default, regex column selection (collect_column_info composed with collect_schema_components), column info regenerated after the parsers, add_missing_columns column order (refuted: known finding).",
+                    " Since session 4 also: NaN arriving as a float value vs as a null in the twin checks (polars total order of floats modelled; refuted: known findings), unique_values_eq on both back ends, compiled patterns with flags, polars Column.set_default, regex column selection (collect_column_info composed with collect_schema_components), column info regenerated after the parsers, add_missing_columns column order (refuted: known finding)."
+                    " Session 5: the polars container validate (components chosen by the parsed frame) is part of C08; element-wise checks with the Check's keyword arguments.",
             "note": COMMON_NOTE + "polars expression semantics (Kleene logic, all() ignoring nulls) are axioms of pyvc/theories/polars_lite.py; the container twins are bounded in the "
                     "column layout (148 layouts, stated in every obligation note), regex columns excluded; parsed-output equality across back ends is not under contract."},
     "C09": {"text": "DataType.check predicates over the live class lattice with symbolic widths, Engine.dtype resolution order for a generic engine (symbolic equivalents table), "
@@ -90,42 +99,50 @@ CLAIMED = {
                     "SchemaError(DATATYPE_COERCION) with the same failure cases; polars coercible/failure-case row algebra incl. polars_coerce_failure_cases under every way polars can "
                     "refuse the cast (mask over the data rows, failure cases == masked-out rows); polars column / container coercion helpers; polars try_coerce evaluates the cast before returning. The per-dtype casting behaviour "
                     "(the heart of the property) is a library fact: covered only by a bounded run-time contract on the real try_coerce of the registered types."
-                    " Since session 4 also: NpString.coerce over a container theory (object dtype keeps what is written), polars Category.try_coerce, the no-key (dataframe-level dtype) case of polars_object_coercible / polars_coerce_failure_cases proved instead of bounded.",
+                    " Since session 4 also: NpString.coerce over a container theory (object dtype keeps what is written), polars Category.try_coerce, the no-key (dataframe-level dtype) case of polars_object_coercible / polars_coerce_failure_cases proved instead of bounded."
+                    " Session 5: numpy_pandas_coercible restated from the property (missing values), numpy_pandas_coerce_failure_cases (decided by the data type of THIS call; memoised functions are state), Date / Decimal over the container kinds; signed decimals in the bounded family (bounded).",
             "note": COMMON_NOTE + "coerce / coerce_value of each data type are S-callbacks in the proofs; the non-strict polars cast is an uninterpreted 'castable' predicate. "
                     "Bounded part: 40 (quick) / 400 (thorough) containers per data type, length <= 5."},
     "C11": {"text": "pandas drop_invalid_rows: rows(result) == rows whose label no collected error reports, for any number of errors (closed-form invariant), values/order kept; "
                     "polars: rows kept iff every row-aligned check output is true, for all frames and <= 3 errors; what a row-wise polars check reports per row "
                     "(ignore_na leaves no null output, column and dataframe-level checks); the row masks of polars nullability / uniqueness / failed coercion are over the data rows; "
                     "the call-site preconditions (only row-attributable errors; masks over the frame that is filtered, i.e. no head/tail/sample) are refuted and listed."
-                    " Since session 4 also: the regex component selection of the polars container and reshape_failure_cases (what drop_invalid_rows reads).",
+                    " Since session 4 also: the regex component selection of the polars container and reshape_failure_cases (what drop_invalid_rows reads)."
+                    " Session 5: the MultiIndex branch of pandas drop_invalid_rows (rows matched by the text of their label); that text is one function of the label (structural + enumerated obligations); polars when/then/otherwise (mask never null).",
             "note": COMMON_NOTE + "MultiIndex label round trip through str/eval and reshape_failure_cases' 'index' column are not under contract."},
     "C12": {"text": "YAML/JSON leg: the live serialisers and deserialisers are executed as composite round trips (through an assumed dump+load transport that is the identity on "
                     "the JSON domain) and proved attribute by attribute for check statistics/options of all 15 built-in checks, components and whole schemas; script leg: every "
-                    "template slot is proved to evaluate to the attribute it is named after (text theory); structural obligations on templates and keys.",
+                    "template slot is proved to evaluate to the attribute it is named after (text theory); structural obligations on templates and keys."
+                    " Session 5: non-finite statistics in to_script (text axiom E1 restricted to finite floats, E6), strict by its three legal values.",
             "note": COMMON_NOTE + "yaml/json/black/exec are assumed (31 theory axioms replayed on the real libraries); schema shapes 0-2 columns, no index / Index / MultiIndex; from_yaml's file handling is a bounded stand-in."},
     "C13": {"text": "The 14 check strategies are proved against the C01 spec functions (support of the result inside dtype domain and check meaning, chained or base) for "
                     "int64/float64/str, numpy_time_dtypes bounds for datetime/timedelta; field_element_strategy's chaining loop with the invariant support(elements) within the intersection of the checks seen; flag flow of the "
                     "series/index/column assembly and schema strategy entry points; the post-processing pipeline of dataframe_strategy (custom checks without strategy are "
                     "evaluated on the frame that is emitted, the index component is attached; assembly call abstracted to an arbitrary base strategy); structural dispatcher table; "
                     "structural: no function of the strategy modules keeps state between calls."
-                    " Since session 4 also: joint uniqueness of dataframe_strategy is carried by a column that cannot be nulled (all-nullable: known finding); the row strategy honours the columns' own checks.",
+                    " Since session 4 also: joint uniqueness of dataframe_strategy is carried by a column that cannot be nulled (all-nullable: known finding); the row strategy honours the columns' own checks."
+                    " Session 5: the null mask is the last value step of index_strategy.",
             "note": COMMON_NOTE + "hypothesis strategies are modelled by their support (pyvc/theories/hypothesis_lite.py); data_frames/multiindex assembly is a bounded stand-in."},
     "C14": {"text": "Statistics inference, statistics->checks, schema construction and the check serialisation pipeline are proved over all in-quantifier dtypes; lemma: the inferred "
                     "bounds admit the data and are attained."
-                    " Since session 4 also: RangeIndex (start / stop symbolic, five steps) in infer_index_statistics.",
+                    " Since session 4 also: RangeIndex (start / stop symbolic, five steps) in infer_index_statistics."
+                    " Session 5: list-valued statistics are ONE argument of their check (single-category categoricals).",
             "note": COMMON_NOTE + "pd.api.types.infer_dtype answers, float rounding monotonicity and the YAML text leg are assumed / bounded (see notes/C14.md)."},
     "C15": {"text": "Every transformation method (pandas and polars schema classes) is proved per attribute (touched / untouched / schema-level / key order / no shared "
                     "mutable state / receiver frame / error exits) for all attribute values over an enumerated family of dict shapes; inverse laws as two-operation programs."
-                    " Since session 4 also: the schema-level joint uniqueness constraints under every operation (unique_spec), `required` as part of the reset-after-set law (refuted: known finding).",
+                    " Since session 4 also: the schema-level joint uniqueness constraints under every operation (unique_spec), `required` as part of the reset-after-set law (refuted: known finding)."
+                    " Session 5: reset_index with a level named like a column / of an unnamed index; comparisons of schemas never raise.",
             "note": COMMON_NOTE + "Dict shapes are enumerated (3 columns, 2-3 index levels, enumerated request lists): a bound of the claim; 'accepts exactly the transformed frames' is a bounded run-time contract."},
     "C16": {"text": "Check/parser collection over an abstract MRO of unbounded depth (closed-form quantified invariants), to_check/to_parser, Field keyword dispatch, "
                     "column/index properties, to_schema caching and parent frame; structural tables for the option wiring."
-                    " Since session 4 also: _regex_filter with non-text aliases.",
+                    " Since session 4 also: _regex_filter with non-text aliases."
+                    " Session 5: FieldInfo.name (a given alias is the name whatever its value).",
             "note": COMMON_NOTE + "_collect_fields (annotation parsing) is a bounded stand-in over generated hierarchies; Config / extras inheritance is a bounded enumeration over chains, mixins and diamonds (<= 4 model classes)."},
     "C17": {"text": "For 27 signature shapes (arity <= 3 plus *rest/**kw, sync and async) the real decorator factories and wrappers are symbolically executed for all argument "
                     "values, options and behaviours of schema.validate and the body: option forwarding, gate, transparency, designation independence; decoration-time state "
                     "(closures, handlers) is unchanged by every call (two-phase frame)."
-                    " Since session 4 also: Union annotations with None anywhere; check_io keeps no state between calls (closure variables in the frame).",
+                    " Since session 4 also: Union annotations with None anywhere; check_io keeps no state between calls (closure variables in the frame)."
+                    " Session 5: check_input / check_io also for a designated argument left at its default or passed by keyword with an int getter (three findings repaired, none open), namedtuple outputs.",
             "note": COMMON_NOTE + "The family of signature shapes is a bound of this claim; inspect/typing run natively on real function objects (see notes/C17.md)."},
     "C20": {"text": "pandas subsample is proved against the position-set spec (rows == head U tail U pick, each once, values and order kept) for all "
                     "frames/series, all h,t,n and random states under the unique-index precondition; the any-index form is refuted by the verifier and listed as a "
